@@ -145,6 +145,21 @@ theorem new_cid_cost_bounded (s : Cid.Remote) (seq rpt : Nat) (cid : Cid.Cid) (h
     omega
   split <;> simp only [Cost.total, Cost.one] <;> omega
 
+theorem recvNewCid_ne_discarded (t : Cid.Remote.Tree) (s : Cid.Remote) (seq rpt : Nat) (cid : Cid.Cid)
+    (h0 : ¬ seq < s.coff) : Cid.Remote.recvNewCid t s seq rpt cid ≠ .discarded := by
+  intro h
+  unfold Cid.Remote.recvNewCid at h
+  split at h; · cases h
+  simp only [h0, if_false] at h
+  split at h
+  · cases h
+  · split at h <;> cases h
+
+theorem farAhead_eq (s : Cid.Remote) (seq : Nat) :
+    s.farAhead seq = decide (seq - (s.coff + s.cdq.length) > max maxSeqGap s.limit) := by
+  have : maxSeqGap = Cid.Remote.maxSequenceGap := by decide +kernel
+  simp [Cid.Remote.farAhead, this]
+
 /-- the only connection error NEW_CONNECTION_ID raises is CONNECTION_ID_LIMIT_ERROR (both trees) -/
 theorem new_cid_err_kind (fixed : Bool) (s : Cid.Remote) (seq rpt : Nat) (cid : Cid.Cid) (k : EK)
     (h : (handleNewCid fixed s seq rpt cid).1 = .err k) : k = .connectionIdLimit := by
@@ -178,13 +193,7 @@ theorem cid_limit_rejected (s : Cid.Remote) (hi : Cid.Remote.RInv s) (seq rpt : 
     exact ⟨this.2.2 rfl, this.2.1⟩
   | errLimit _ => simp only [hr] at h; cases h
   | panic _ => simp only [hr] at h; cases h
-  | discarded =>
-    exfalso
-    unfold Cid.Remote.recvNewCid at hr
-    simp only [Cid.Remote.Tree.pre, Bool.false_and, Bool.false_eq_true, if_false, h0] at hr
-    split at hr
-    · cases hr
-    · split at hr <;> cases hr
+  | discarded => exact absurd hr (recvNewCid_ne_discarded _ s seq rpt cid h0)
 
 example : Cid.Remote.RInv (Cid.Remote.init 2) ∧ (Cid.Remote.init 2).coff ≤ 0 ∧
     ∃ s', (handleNewCid true (Cid.Remote.init 2) 0 0 (.ext 0)).1 = .ok s' :=
@@ -199,10 +208,9 @@ theorem cid_count_exceeded_rejected (s s2 : Cid.Remote) (seq rpt : Nat) (cid : C
   unfold handleNewCid
   have h0 : ¬ seq < s.coff := by omega
   simp only [h0, if_false, not_true_eq_false, false_and, true_and, hgap]
+  have hfa : s.farAhead seq = false := by rw [farAhead_eq]; simpa using hgap
   unfold Cid.Remote.recvNewCid
-  simp only [Cid.Remote.Tree.pre, Cid.Remote.Tree.count, Bool.false_and, Bool.false_eq_true, if_false, h0, h2,
-    Bool.true_and, decide_eq_true_eq, hc, if_true]
-  rfl
+  simp [Cid.Remote.Tree.pre, Cid.Remote.Tree.count, hfa, h0, h2, hc, Out.isErr]
 
 /- /repo HEAD no longer rejects on the frame's two fields alone: limit 2, ids {0, 2} held (1 retired by its path):
 `seq 3, retire_prior_to 0` has `seq - rpt = 3 > 2` and is accepted — see C14 `legal_issue_accepted`. -/
@@ -226,13 +234,7 @@ theorem new_cid_old_cells (s : Cid.Remote) (seq rpt : Nat) (cid : Cid.Cid)
   have : ¬ seq < s.coff := by omega
   simp only [h1, this, if_false, Bool.false_eq_true, false_and, and_false]
   cases hr : Cid.Remote.recvNewCid .pinned s seq rpt cid with
-  | discarded =>
-    exfalso
-    unfold Cid.Remote.recvNewCid at hr
-    simp only [Cid.Remote.Tree.pre, Bool.true_and, decide_eq_true_eq, h1, this, if_false] at hr
-    split at hr
-    · cases hr
-    · split at hr <;> cases hr
+  | discarded => exact absurd hr (recvNewCid_ne_discarded _ s seq rpt cid this)
   | errLimit _ => simp only; omega
   | accepted _ => simp only; omega
   | panic _ => simp only; omega
